@@ -145,6 +145,7 @@ class Engine:
             node = bu.Node('bytes', vg.inline(root), root)
         g = bu.ScriptGen(s, rng, styles=styles)
         g.gen_api = gen_api and s.name in self.HG
+        g.moving_alloc = rng.random() < 0.3          # an allocator that moves every block it grows
         g.corder = self.corder.get(s.name)
         g.thash = self.thash.get(s.name)
         g.embed_min_depth = embed_min_depth
@@ -167,6 +168,23 @@ class Engine:
         o = {'clustering': rng.random() < 0.5, 'block_align': 0, 'ident': None, 'with_size': False, 'style': 'se', 'early': False, 'align': 0}
         g.toplevel(node, o)
         return Case(s, s.root, node, g, o, 'wide-presence-patterns')
+
+    def make_union_realloc_case(self, rng, inline):
+        """generated <T>_<union>_add with the open table's inline data ending `inline` bytes into the data stack, moving allocator"""
+        s = self.by_name['bwide']
+        node = bu.union_realloc_value(s, rng, inline)
+        g = bu.ScriptGen(s, rng, styles=False)
+        g.gen_api = True; g.keep_order = True; g.create_bias = 0.0; g.moving_alloc = True
+        g.corder = self.corder.get(s.name); g.thash = self.thash.get(s.name)
+        o = {'clustering': True, 'block_align': 0, 'ident': None, 'with_size': False, 'style': 'se', 'early': False, 'align': 0}
+        g.h.append('X:1:0:-'); g.m.append('X:1:0:0')
+        g.h.append('B:-:0:0'); g.m.append('B:0:0:0')
+        # the union member exists before the table is opened: nothing else touches the data stack between <T>_start and the union add
+        member = [v for f, v in node.b if v.kind == 'union'][0].b
+        g.gen_api = False; g.node(member); g.gen_api = True
+        r = g.table_gen(node)
+        g.h.append('E:%d' % r); g.m.append('E:%d' % r); g.new()
+        return Case(s, 'WU', node, g, o, 'union-add-at-stack-growth')
 
     # ------------------------------------------------------------------ running
     def run_builds(self, cases):
